@@ -587,8 +587,12 @@ impl<'tcx> Cx<'tcx> {
             Const::Ty(_, tc) => {
                 if let Some(leaf) = tc.try_to_leaf() {
                     o.put("int", J::i(scalar_int_to_i128(leaf, ty)));
+                    None
+                } else if matches!(tc.kind(), ty::ConstKind::Value(_)) {
+                    c.eval(tcx, tenv, rustc_span::DUMMY_SP).ok()
+                } else {
+                    None
                 }
-                None
             }
         };
         if let Some(v) = val {
@@ -613,8 +617,10 @@ impl<'tcx> Cx<'tcx> {
                 ConstValue::ZeroSized => {
                     o.put("zst", J::Bool(true));
                 }
-                ConstValue::Slice { .. } => {
-                    if let Some(bytes) = v.try_get_slice_bytes_for_diagnostics(tcx) {
+                ConstValue::Slice { meta, .. } => {
+                    if meta == 0 {
+                        o.put("str", J::s(""));
+                    } else if let Some(bytes) = v.try_get_slice_bytes_for_diagnostics(tcx) {
                         if let Ok(s) = std::str::from_utf8(bytes) {
                             o.put("str", J::s(s));
                         }
